@@ -27,6 +27,7 @@ import Dawgs.Proofs.C01CountHop
 import Dawgs.Proofs.C01Limit
 import Dawgs.Proofs.C01With
 import Dawgs.Proofs.C01WithHop
+import Dawgs.Proofs.C01Order
 namespace Dawgs.C01.Props
 open Dawgs Dawgs.Sql Dawgs.C01.Proofs
 
@@ -507,6 +508,64 @@ example : (exWithHopQ.tr [("K", 1)]).isSome = true := by decide +kernel
 def exWithQ : S3.Query := ⟨"n", ["K"], some (.propEqInt false "a" 1), [.node (some "m"), .prop "name" "x"], [.node 0 none, .val 1 none, .id 0 none]⟩
 example : (ofCyWith exWithQ.toCy == some exWithQ) = true := by decide +kernel
 example : (exWithQ.tr [("K", 1)]).isSome = true := by decide +kernel
+
+/-! ### stage S1o: ORDER BY on a property — `tr8F`. The jsonb order of the sort key and openCypher's order coincide exactly under `KeyOK` -/
+
+theorem ofCyOrder_sound (q : Cy.Query) (s : S1o.Query) (h : ofCyOrder q = some s) : s.toCy = q := Proofs.ofCyOrder_sound q s h
+
+theorem keyOK_of_check (g : Graph) (k : String) (h : keyOKb g k = true) : KeyOK k g.nodes := keyOKb_sound g k h
+
+theorem tr8_some (flipOf : S2.Query → Bool) (flipCh : Ch.Query → Bool) (flipN : S2n.Query → Bool) (fast prune push : Bool) (km : KindMap) (q : Cy.Query)
+    (st : Stmt) (ps : List (String × Val)) (h : tr8F flipOf flipCh flipN fast prune push km q = some (st, ps)) :
+    (ofCyOrder q = none ∧ tr7F flipOf flipCh flipN fast prune push km q = some (st, ps)) ∨
+    (∃ s : S1o.Query, ofCyOrder q = some s ∧ s.toCy = q ∧ s.tr km = some st ∧ ps = []) := by
+  unfold tr8F at h
+  cases ho : ofCyOrder q with
+  | none => rw [ho] at h; exact Or.inl ⟨rfl, h⟩
+  | some s =>
+    rw [ho] at h
+    simp only [Option.map_eq_some_iff] at h
+    obtain ⟨st', hst, heq⟩ := h
+    cases heq
+    exact Or.inr ⟨s, rfl, ofCyOrder_sound q s ho, hst, rfl⟩
+
+/-- `tr_sound_S1o`: MATCH (n[:K…]) [WHERE p] RETURN items ORDER BY n.k [ASC|DESC] [SKIP i] [LIMIT j] — for every graph with `GraphOK` whose values
+of property k are scalars with no boolean value meeting a number value (`KeyOK`, the hypothesis that makes the KNOWN DEVIATION
+order-by-uses-jsonb-cross-type-order explicit: outside it the statement sorts Number < Boolean where openCypher sorts Boolean < Number, and
+arrays / objects differ again): whenever the statement yields a table and the reference semantics answers, both show the client the same rows
+in the same order -/
+theorem tr_sound_S1o (km : KindMap) (g : Graph) (hok : GraphOK km g) (s : S1o.Query) (hK : KeyOK s.key g.nodes) (st : Stmt) (h : s.tr km = some st)
+    (t : Table) (ht : Sql.eval (encode km g) st [] = .ok t) (r : List String × List (List Cy.CVal)) (hr : Cy.eval .none g s.toCy = .ok r) :
+    Agree km g t r := by
+  obtain ⟨names, rows, hsql, hagree⟩ := s1o_sound km g hok s hK st h
+  rcases hsql with hsql | ⟨w, hsql⟩
+  · rw [hsql] at ht; cases ht; exact hagree r hr
+  · rw [hsql] at ht; cases ht
+
+/-- the statement never ends in an SQL run-time / type error of the model; the reference semantics refuses a query of the stage only when its
+SKIP / LIMIT cuts inside a block of equal sort keys (then openCypher does not determine the result) -/
+theorem tr_total_S1o (km : KindMap) (g : Graph) (hok : GraphOK km g) (s : S1o.Query) (hK : KeyOK s.key g.nodes) (st : Stmt) (h : s.tr km = some st) :
+    (∀ m, Sql.eval (encode km g) st [] ≠ .error (.runtime m)) ∧ (∀ m, Sql.eval (encode km g) st [] ≠ .error (.typing m)) ∧
+    ((∃ r, Cy.eval .none g s.toCy = .ok r) ∨ Cy.eval .none g s.toCy = .error "nondeterministic-skip-inside-ties" ∨
+      Cy.eval .none g s.toCy = .error "nondeterministic-limit-inside-ties") := by
+  obtain ⟨names, rows, hsql, _⟩ := s1o_sound km g hok s hK st h
+  have hwf : s.wf = true := by
+    unfold S1o.Query.tr at h
+    cases hwf : s.wf with
+    | true => rfl
+    | false => simp [hwf] at h
+  refine ⟨fun m hm => ?_, fun m hm => ?_, ?_⟩
+  · rcases hsql with hsql | ⟨w, hsql⟩
+    · rw [hsql] at hm; cases hm
+    · rw [hsql] at hm; cases hm
+  · rcases hsql with hsql | ⟨w, hsql⟩
+    · rw [hsql] at hm; cases hm
+    · rw [hsql] at hm; cases hm
+  · exact cy_refuses_only_ties g hok.nodup s hwf (keyOK_sub s.key g.nodes _ (fun n hn => (List.mem_filter.mp hn).1) hK)
+
+def exOrdQ : S1o.Query := ⟨⟨"n", ["K"], none, [.prop "name" none, .id none], none⟩, "a", false, some 1, some 2⟩
+example : (ofCyOrder exOrdQ.toCy == some exOrdQ) = true := by decide +kernel
+example : (exOrdQ.tr [("K", 1)]).isSome = true := by decide +kernel
 
 theorem ofCyCount2_sound (q : Cy.Query) (s : S2n.Query) (h : ofCyCount2 q = some s) : s.toCy = q := Proofs.ofCyCount2_sound q s h
 
